@@ -26,7 +26,7 @@ version = "0.0.0"
 edition = "2021"
 
 [dependencies]
-fast_qr = { path = "%s", default-features = false }
+fast_qr = { path = "%s", default-features = false, features = ["svg"] }
 qrcode = { version = "0.12.0", default-features = false }   # only for `selfcheck` (oracle vs an independent encoder)
 
 # the dependency is compiled with the checks the property statements assume ("debug assertions on")
@@ -127,6 +127,28 @@ def sweep(props, size='quick', seed=0, repo=None):
     os.makedirs(ROOT, exist_ok=True)
     json.dump(r, open(cpath, 'w'))
     return r
+
+
+def c18(size='quick', seed=0, repo=None):
+    """Bounded stand-in for SvgBuilder::image(): default placement exhaustively (40 versions x 3 shapes x margins
+    0..16) and sampled size/gap/position overrides, read back from the SVG text."""
+    exe = build(repo)
+    t0 = time.time()
+    cmd = [exe, 'c18', size, str(seed)]
+    p = subprocess.run(cmd, capture_output=True, text=True, timeout=1200)
+    fails, summary = [], None
+    for l in p.stdout.splitlines():
+        try:
+            o = json.loads(l)
+        except Exception:
+            continue
+        if o.get('summary'):
+            summary = o
+        elif o.get('fail'):
+            fails.append(o)
+    if summary is None:
+        raise NativeUnavailable('native C18 harness crashed (exit %s): %s' % (p.returncode, (p.stderr or p.stdout)[-400:]))
+    return {'summary': summary, 'failures': fails, 'cmd': ' '.join(cmd), 'wall_s': round(time.time() - t0, 2)}
 
 
 def selfcheck(repo=None):
